@@ -296,6 +296,8 @@ def _by_key(R: Runner, kind: str, x: list[Any], k: str, ps: int) -> None:
     Es = [list(x)]
     s = R.both(fname, x, k)
     lm = R.T(fname, f"{fname}: i => {lam_path(k)}", x=x)
+    R.locals_agree(fname, f"{fname}: i => i[t]", lm, k, "lambda-sees-template-local-variable",
+                   sites=("assign", "for", "with"), x=x)
     has_missing = any(hget(e, k) is MISSING for e in x)
     present = sum(1 for e in x if hget(e, k) is not MISSING)
     q = kind + "-values"
